@@ -307,6 +307,12 @@ class PipeGen:
             return None
         k = self.draw(st.integers(1, 2))
         cands = [x for x in sc.vis_refs if x[1] not in t.group]
+        if self.cfg.exclude_known:
+            # K05 (open finding): grouping by constant columns only
+            nc = [x for x in cands if x[1] not in t.const_cols]
+            if len(nc) != len(cands):
+                self.excluded["K05"] = self.excluded.get("K05", 0) + 1
+            cands = nc
         # prefer key-like columns (few distinct values)
         if not cands:
             return None
